@@ -1,5 +1,5 @@
 From Coq Require Extraction.
 From Coq Require Import ExtrOcamlBasic.
-From NV Require Import Base.Witness Index.Bins Bam.Record Bam.Encode Bam.Decode Bam.Lazy Bam.LazyErr Bam.Subseq Bam.LazyRewrite Bam.File Bam.FileBgzf Bam.Reuse.
+From NV Require Import Base.Witness Index.Bins Bam.Record Bam.Encode Bam.Decode Bam.Lazy Bam.LazyErr Bam.Subseq Bam.SeqIter Bam.LazyRewrite Bam.File Bam.FileBgzf Bam.Reuse.
 From NV Require Sam.Header.
-Extraction "model.ml" nv_types_witness encode decode decode_record encode_base unpack_bases dec_op pack_bases sub_iter lazy_view_of lzp_seq_len lzp_seq_get lzp_data data_get lzp_cigar_len lazy_convert lzp_data_k data_get_k lazy_convert_k split_at_checked subseq_len subseq_is_empty subseq_get subseq_iter validate lazy_rewrite file_of_text read_file read_file_lazy read_file_reused Sam.Header.write_header bgzf_file_l0 bgzf_read_l0.
+Extraction "model.ml" nv_types_witness encode decode decode_record encode_base unpack_bases dec_op pack_bases sub_iter lazy_view_of lzp_seq_len lzp_seq_get lzp_data data_get lzp_cigar_len lazy_convert lzp_data_k data_get_k lazy_convert_k split_at_checked subseq_len subseq_is_empty subseq_get subseq_iter seq_iter_run validate lazy_rewrite file_of_text read_file read_file_lazy read_file_reused Sam.Header.write_header bgzf_file_l0 bgzf_read_l0.
